@@ -549,6 +549,14 @@ pub fn run_step(
                 SExp::Integer(l, v) => {
                     /* An integer picks a value from the context */
                     let flat_v = flatten_signed_int(v.clone());
+                    if flat_v == bi_zero() {
+                        // As in clvmr, the path 0 selects nil however it is spelled.
+                        return Ok(RunStep::OpResult(
+                            l.clone(),
+                            Rc::new(SExp::Nil(l.clone())),
+                            Rc::new(step_.clone()),
+                        ));
+                    }
                     return Ok(RunStep::OpResult(
                         l.clone(),
                         choose_path(
@@ -562,15 +570,22 @@ pub fn run_step(
                     ));
                 }
                 SExp::QuotedString(l, _, v) => {
+                    // A path atom is an unsigned number (0xff80 is 65408, as in clvmr).
                     step = RunStep::Step(
-                        Rc::new(SExp::Integer(l.clone(), number_from_u8(v))),
+                        Rc::new(SExp::Integer(
+                            l.clone(),
+                            Number::from_bytes_be(num_bigint::Sign::Plus, v),
+                        )),
                         context.clone(),
                         parent.clone(),
                     );
                 }
                 SExp::Atom(l, v) => {
                     step = RunStep::Step(
-                        Rc::new(SExp::Integer(l.clone(), number_from_u8(v))),
+                        Rc::new(SExp::Integer(
+                            l.clone(),
+                            Number::from_bytes_be(num_bigint::Sign::Plus, v),
+                        )),
                         context.clone(),
                         parent.clone(),
                     );
